@@ -80,9 +80,44 @@ TRANSCRIPT_CONFIGS_QUICK = [
 ]
 
 
+def _ensure(config):
+    if config not in CONFIGS and config.startswith("rand-"):
+        _, seed, k = config.split("-")
+        random_configs(seed, int(k) + 1)
+
+
 def features(config):
+    _ensure(config)
     return CONFIGS[config][0]
 
 
 def rustflags(config):
+    _ensure(config)
     return CONFIGS[config][1]
+
+
+# Random points of the optimisation-only feature lattice (C07): a fresh sample per VERIF_SEED.
+RANDOM_POOL = [
+    "t-opt-dist-length-table", "t-opt-dist-qratios-table", "t-opt-dist-qratios-table-double",
+    "t-opt-pearson-table-double", "lowmem-buckets",
+    "t-opt-low-memory-hex-str-decode-half-table", "t-opt-low-memory-hex-str-decode-quarter-table",
+    "t-opt-low-memory-hex-str-decode-min-table", "t-opt-low-memory-hex-str-encode-half-table",
+    "t-opt-low-memory-hex-str-encode-min-table", "t-opt-simd-body-comparison",
+    "t-opt-simd-bucket-aggregation", "t-opt-simd-parse-hex", "t-opt-simd-convert-hex",
+    "t-simd-per-arch", "t-detect-features", "unsafe_",
+]
+
+
+def random_configs(seed, count):
+    """Register and return `count` random optimisation-only configurations derived from `seed`."""
+    import random
+    rng = random.Random(int(seed) * 1000003 + 17)
+    names = []
+    for k in range(count):
+        p = rng.choice([0.25, 0.4, 0.6])
+        feats = BASE + [f for f in RANDOM_POOL if rng.random() < p]
+        flags = rng.choice(["", "-Ctarget-feature=+ssse3,+sse4.1", "-Ctarget-feature=+avx2"])
+        name = "rand-%s-%d" % (seed, k)
+        CONFIGS[name] = (feats, flags)
+        names.append(name)
+    return names
